@@ -17,7 +17,7 @@ func init() {
 		LevelText:   "Structural clauses decided for all paths: every traversal whose order can influence assignments goes through the sorted iterator (rangeStreamsOrdered) and the remaining map ranges are order-insensitive; the heap comparator is a total order (ties broken by consumer id); the rebalance resets every subscriber of the stream, then gives each partition 0..n-1 to the Peek() of that stream's heap; group mutators are fenced by the group epoch; assignments are served only by the coordinator for the current epoch and as copies; stream deletion must not rebalance asynchronously to later applies. The exactly-one / differ-by-at-most-one arithmetic over all histories is not decided.",
 		LevelNote:   "Trusted: go/ssa; container/heap semantics (Init restores the invariant, index 0 is a minimum).",
 		DesignRef:   "DESIGN.md §4 C12",
-		Explanation: "Rounds 9-10: R12.5 also: a repeated join is refused; a restored group replays the joins; after a member left a stream's heap the heap is tested for emptiness. R12.5 also (round 8): a joining consumer is pushed once per stream of its stream set, not per element of the join list. R12.8 also: the partition-count lookup is the metadata store's, not a memo around it; R12.5 also: no iteration of the loop that collects the streams to rebalance skips the collection. R12.5 also: a stream's subscriber heap goes with its last subscriber (F79); R12.8 a rebalance counts the stream's partitions when it runs. R12.1 order-independence of traversals in groups.go, R12.2 comparator total order, R12.3 rebalance uses the right heap and covers all partitions, R12.4 epoch fences and coordinator-only copies, R12.5 membership bookkeeping (join / leave / stream deletion update members, heaps and assignments together; presence tests; epoch advance; last-member result), R06.2 (shared) no asynchronous rebalance on the apply path and every group is told about a deleted stream, R06.8 (shared) restore order, R12.6 lock pairing. R14.6 (shared) the group sentinels arrive unwrapped at FetchConsumerGroupAssignments; R15.8 (shared) groups.* timeouts reach their Config fields. NOT decided: the balance arithmetic over all histories.",
+		Explanation: "Round 12: R12.5 reads the per-stream walk of addConsumer / removeConsumer as a closure or as a loop (a loop must not return part-way). Rounds 9-10: R12.5 also: a repeated join is refused; a restored group replays the joins; after a member left a stream's heap the heap is tested for emptiness. R12.5 also (round 8): a joining consumer is pushed once per stream of its stream set, not per element of the join list. R12.8 also: the partition-count lookup is the metadata store's, not a memo around it; R12.5 also: no iteration of the loop that collects the streams to rebalance skips the collection. R12.5 also: a stream's subscriber heap goes with its last subscriber (F79); R12.8 a rebalance counts the stream's partitions when it runs. R12.1 order-independence of traversals in groups.go, R12.2 comparator total order, R12.3 rebalance uses the right heap and covers all partitions, R12.4 epoch fences and coordinator-only copies, R12.5 membership bookkeeping (join / leave / stream deletion update members, heaps and assignments together; presence tests; epoch advance; last-member result), R06.2 (shared) no asynchronous rebalance on the apply path and every group is told about a deleted stream, R06.8 (shared) restore order, R12.6 lock pairing. R14.6 (shared) the group sentinels arrive unwrapped at FetchConsumerGroupAssignments; R15.8 (shared) groups.* timeouts reach their Config fields. NOT decided: the balance arithmetic over all histories.",
 	})
 }
 
